@@ -103,27 +103,32 @@ pub fn clip_dp(
     let py = |j: usize| if j == 0 { 0 } else { pen(clips[2]) };
     let sx = |i: usize| if i == m { 0 } else { pen(clips[1]) };
     let sy = |j: usize| if j == n { 0 } else { pen(clips[3]) };
-    let mut s = vec![vec![NEG; n + 1]; m + 1];
-    let mut ii = vec![vec![NEG; n + 1]; m + 1];
-    let mut dd = vec![vec![NEG; n + 1]; m + 1];
+    // two rolling rows (the oracle is also used for |y| beyond 2^16)
+    let mut s_prev = vec![NEG; n + 1];
+    let mut s_cur = vec![NEG; n + 1];
+    let mut ii_prev = vec![NEG; n + 1];
+    let mut ii_cur = vec![NEG; n + 1];
     let mut best = NEG;
     for i in 0..=m {
+        let mut dd = NEG;
         for j in 0..=n {
             let mut v = add(px(i), py(j));
             if i > 0 {
-                ii[i][j] = add(ii[i - 1][j], ext).max(add(s[i - 1][j], open + ext));
-                v = v.max(ii[i][j]);
+                ii_cur[j] = add(ii_prev[j], ext).max(add(s_prev[j], open + ext));
+                v = v.max(ii_cur[j]);
             }
             if j > 0 {
-                dd[i][j] = add(dd[i][j - 1], ext).max(add(s[i][j - 1], open + ext));
-                v = v.max(dd[i][j]);
+                dd = add(dd, ext).max(add(s_cur[j - 1], open + ext));
+                v = v.max(dd);
             }
             if i > 0 && j > 0 {
-                v = v.max(add(s[i - 1][j - 1], mf(x[i - 1], y[j - 1])));
+                v = v.max(add(s_prev[j - 1], mf(x[i - 1], y[j - 1])));
             }
-            s[i][j] = v;
+            s_cur[j] = v;
             best = best.max(add(v, add(sx(i), sy(j))));
         }
+        std::mem::swap(&mut s_prev, &mut s_cur);
+        std::mem::swap(&mut ii_prev, &mut ii_cur);
     }
     best
 }
